@@ -127,6 +127,23 @@ def check(n, edges, order, name, acc, succ_orders=None, refc=None):
     res = call(lambda: [list(c) for c in compute_SCCs(G)])
     if refc is None:
         refc = ref_classes(n, edges)
+    if n <= 3 or succ_orders is None:
+        # a consumer that owns what it is handed: it empties every yielded component at once
+        def draining():
+            out = []
+            for c in compute_SCCs(G):
+                out.append(list(c))
+                try:
+                    del c[:]
+                except TypeError:
+                    pass
+            return out
+        res_d = call(draining)
+        if res_d != res:
+            acc.violation('mutating-a-yielded-component-changes-later-ones',
+                          {'n': n, 'edges': [list(e) for e in edges], 'order': list(order),
+                           'names': [repr(name(i)) for i in range(n)], 'succ_orders': None},
+                          res[1:] if res[0] == 'ok' else res, res_d[1:] if res_d[0] == 'ok' else res_d)
     nontriv = 1 if (len(refc) >= 2 and any(len(c) >= 2 for c in refc)) else 0
     acc.ev(1, nontriv)
     case = {'n': n, 'edges': [list(e) for e in edges], 'order': list(order),
